@@ -354,7 +354,13 @@ func (r *runner) Do(ev Event) Obs {
 			sig = sig[:1]
 		}
 		// oracle bit: independent verification against the polynomial of the epoch the node is in
-		o.Valid = w.Sch.ThresholdScheme.VerifyPartial(w.H.VerifPubPoly(), w.Digest(ev.Round, prev), sig) == nil
+		// (the polynomial of the epoch whose group the vault holds, as the HARNESS dealt it -- not the
+		// one the node's vault hands out, which is part of what is under test)
+		oraclePoly := w.H.VerifPubPoly()
+		if o.LiveBefore >= 0 {
+			oraclePoly = w.Epochs[o.LiveBefore].PubPoly
+		}
+		o.Valid = w.Sch.ThresholdScheme.VerifyPartial(oraclePoly, w.Digest(ev.Round, prev), sig) == nil
 		r.lastPrev, r.lastSig = prev, sig
 		o.SigBytes, o.PrevBytes = sig, prev
 		pkt := &proto.PartialBeaconPacket{Round: ev.Round, PreviousSignature: prev, PartialSig: sig, Metadata: &proto.Metadata{BeaconID: "default"}}
